@@ -17,9 +17,11 @@ THEOREMS = [
 ]
 RULE = ("stage 1: for every registered constructor, schema-directed values (all flag-group presence patterns for "
         "constructors with at most five conditional fields, type-directed random values otherwise, every enum "
-        "member, vectors of 255, 256, 257, 1023, 1024, 1025, 3000 (thorough: up to 10000) elements of every element kind) are marshalled by the real code and by the Lean schema-defined serialisation (which reads only the "
+        "member, every conditional bytes / vector field present with length 0 (with and without the other groups), vectors of 255, 256, 257, 1023, 1024, 1025, 3000 (thorough: up to 10000) elements of every element kind) are marshalled by the real code and by the Lean schema-defined serialisation (which reads only the "
         "schema line) and the bytes compared; stage 2: the schema-defined bytes are decoded by the real code and "
-        "must give the value back; byte strings at the boundary lengths 0..5, 252..257, 65535, 65536 (thorough: "
+        "must give the value back, nil-sensitively for conditional slices (present and empty = empty non-nil, absent = nil); "
+        "for every conditional string / int / long / double / Bool field the schema bytes with that field present "
+        "holding the zero value (which no Go value marshals to) are decoded as well; byte strings at the boundary lengths 0..5, 252..257, 65535, 65536 (thorough: "
         "2^24-1, 2^24). distinct = distinct operation lines")
 
 
@@ -44,6 +46,17 @@ def run(ctx):
         le = open(os.path.join(d, "lean.out")).read().splitlines()
         go = open(os.path.join(d, "go.out")).read().splitlines()
         for op, l, g in zip(ops, le, go):
+            if op.startswith("c02.encz "):
+                # schema bytes in which a conditional scalar parameter is present with the zero value of its
+                # type: no Go value marshals to them (the Go side answers enc=-); stage 2 decodes them
+                if l == "enc=notInSchema":
+                    skipped += 1
+                elif l.startswith("enc=") and l not in ("enc=err", "enc=panic"):
+                    t = op.split()
+                    stage2.append("c02.dec %s %s %s" % (l[4:], t[2], t[3]))
+                else:
+                    ctx.report_unexplained("the schema side gives no bytes for: " + op[:200], {"lean": l})
+                continue
             if not op.startswith("c02.enc "):
                 if l != g:
                     ctx.report_failing_input({"op": op, "out": g, "why": "real code: %s; schema-defined: %s" % (g[:200], l[:200])},
@@ -71,7 +84,7 @@ def run(ctx):
             le2 = open(os.path.join(d2, "lean.out")).read().splitlines()
             for op, g, l in zip(ops2, go2, le2):
                 if g != "ok":
-                    ctx.report_failing_input({"op": op[:100000], "out": g, "why": "bytes built from the schema do not decode to the value (real decoder: %s, model decoder: %s)" % (g, l)},
+                    ctx.report_failing_input({"op": op[:100000], "out": g, "why": "bytes built from the schema do not decode to the value (real decoder: %s, model decoder: %s; diff-nil = a conditional field present with length 0 comes back nil (absent) or the reverse)" % (g, l)},
                                              "stage 2: tl.DecodeUnknownObject on schema-defined bytes")
                 elif l != "ok":
                     ctx.report_unexplained("decoder model disagrees on schema-defined bytes: " + op[:200], {"go": g, "lean": l})
@@ -103,7 +116,7 @@ def replay(ctx, path):
     go = open(os.path.join(d, "go.out")).read().splitlines()
     le = open(os.path.join(d, "lean.out")).read().splitlines()
     for op, g, l in zip(ops, go, le):
-        bad = (op.startswith("c02.dec") and g != "ok") or (not op.startswith("c02.dec") and g != l)
+        bad = (op.startswith("c02.dec") and g != "ok") or (not op.startswith("c02.dec") and not op.startswith("c02.encz ") and g != l)
         if bad:
             print("REPRODUCED: %s\n  real code: %s\n  schema-defined: %s" % (op[:300], g[:300], l[:300]))
             rc = 1
